@@ -45,6 +45,7 @@ def run(chk):
   data, r = tlc.export_json('DiffDesign', _cfg('design', tier), timeout=1500, workers=tlc.DEFAULT_WORKERS)
   chk.add_tlc(r)
   chk.notes['wall_tlc_s'] = [round(r.wall_s, 1)]
+  chk.notes['tlc_distinct_states'] = [r.distinct]
   if not r.ok:
     raise tlc.TLCError(f'design model: {r.violated} violated:\n' + r.out[-3000:])
   # 2. design level, mode 'same' as coded: TLC exhibits the ModePartition counter-example, laws hold outside the zone
@@ -52,6 +53,7 @@ def run(chk):
                           workers=tlc.DEFAULT_WORKERS)
   chk.add_tlc(r2)
   chk.notes['wall_tlc_s'].append(round(r2.wall_s, 1))
+  chk.notes['tlc_distinct_states'].append(r2.distinct)
   if not r2.ok:
     raise tlc.TLCError(f'as-coded design model: {r2.violated} violated:\n' + r2.out[-3000:])
   n = data['n']
@@ -86,6 +88,7 @@ def run(chk):
   r3 = tlc.check_with_json('DiffObs', _cfg('laws', tier), obs, timeout=1500)
   chk.add_tlc(r3)
   chk.notes['wall_tlc_s'].append(round(r3.wall_s, 1))
+  chk.notes['tlc_distinct_states'].append(r3.distinct)
   if r3.ok:
     chk.exhaustive = True
     return
@@ -96,6 +99,7 @@ def run(chk):
   r4 = tlc.check_with_json('DiffObs', _cfg('diag', tier), obs, name='diag-DiffObs-' + tier, timeout=1500)
   chk.add_tlc(r4)
   chk.notes['wall_tlc_s'].append(round(r4.wall_s, 1))
+  chk.notes['tlc_distinct_states'].append(r4.distinct)
   if not r4.ok:
     raise tlc.TLCError('DiffObs diagnosis run failed:\n' + r4.out[-3000:])
   chk.exhaustive = True
